@@ -1317,6 +1317,78 @@ def single_pass_iterables(rep, rule, idx):
     rep.count("traversed_parameters", n_params)
 
 
+def view_safe_operations(rep, rule, idx, module="csr/action.py"):
+    """A component whose constructor takes a *shape-like* `shape` and creates its signals from it -- `Signal(shape)`, members
+    `In(shape)` / `Out(shape)`, a port `FieldPort.Signature(shape, access)` -- gets *views* for enumeration and data-layout
+    shapes (amaranth.lib.enum / data): objects that can be assigned, compared and converted (`.eq`, `==`, `Value.cast`,
+    `.as_value()`, argument of `Cat` / `Mux`), but not iterated, indexed, measured with len() or combined arithmetically.  Every
+    other use of such a signal in the class is an internal TypeError at elaboration for a shape the constructor accepted."""
+    import ast as _ast
+    n_cls = n_use = 0
+    for cls in idx.all_classes():
+        if cls.module.rel != module:
+            continue
+        init = cls.method("__init__")
+        if init is None or "shape" not in init.params:
+            continue
+        shaped = set()              # unparsed expressions denoting shape-typed signals
+        for x in _ast.walk(init.node):
+            if isinstance(x, _ast.Assign) and len(x.targets) == 1 and isinstance(x.targets[0], _ast.Attribute) and \
+                    isinstance(x.value, _ast.Call) and _ast.unparse(x.value.func) in ("Signal",) and x.value.args and \
+                    isinstance(x.value.args[0], _ast.Name) and x.value.args[0].id == "shape":
+                shaped.add(_ast.unparse(x.targets[0]))
+            if isinstance(x, _ast.Dict):
+                for k, v in zip(x.keys, x.values):
+                    if isinstance(k, _ast.Constant) and isinstance(v, _ast.Call) and _ast.unparse(v.func) in ("In", "Out") and v.args and \
+                            isinstance(v.args[0], _ast.Name) and v.args[0].id == "shape":
+                        shaped.add(f"self.{k.value}")
+        # the field port: r_data / w_data have the field's shape
+        shaped |= {"self.port.r_data", "self.port.w_data"}
+        if not shaped:
+            continue
+        n_cls += 1
+        for m_ in [f for fs in cls.methods.values() for f in fs]:
+            if m_.name == "__init__":
+                continue
+            parents = {}
+            for x in _ast.walk(m_.node):
+                for ch in _ast.iter_child_nodes(x):
+                    parents[ch] = x
+            # local aliases bound to a conversion are values; local aliases bound to the raw signal are views too
+            raw = set(shaped)
+            for x in _ast.walk(m_.node):
+                if isinstance(x, _ast.Assign) and len(x.targets) == 1 and isinstance(x.targets[0], _ast.Name) and _ast.unparse(x.value) in shaped:
+                    raw.add(x.targets[0].id)
+            for x in _ast.walk(m_.node):
+                if not isinstance(x, (_ast.Attribute, _ast.Name)) or _ast.unparse(x) not in raw or not isinstance(getattr(x, 'ctx', None), _ast.Load):
+                    continue
+                par = parents.get(x)
+                if isinstance(par, _ast.Attribute) and par.value is x and _ast.unparse(par) in raw:
+                    continue                            # self.port inside self.port.w_data
+                n_use += 1
+                bad = None
+                if isinstance(par, _ast.Subscript) and par.value is x:
+                    bad = f"`{_ast.unparse(par)[:50]}` indexes it"
+                elif isinstance(par, (_ast.For, _ast.comprehension)) and par.iter is x:
+                    bad = "it is iterated"
+                elif isinstance(par, _ast.Call) and x in par.args and isinstance(par.func, _ast.Name) and \
+                        par.func.id in ("enumerate", "len", "reversed", "zip", "iter", "list", "tuple", "sum", "any", "all"):
+                    bad = f"`{par.func.id}(...)` iterates / measures it"
+                elif isinstance(par, _ast.Attribute) and par.value is x and par.attr not in ("eq", "as_value", "shape", "name", "src_loc") and \
+                        isinstance(parents.get(par), _ast.Call) and parents.get(par).func is par:
+                    bad = f"`.{par.attr}()` is a Value method"
+                elif isinstance(par, (_ast.BinOp, _ast.UnaryOp)):
+                    bad = "it is an operand of an arithmetic / bitwise operator"
+                if bad:
+                    rep.bad(rule, m_.site, f"`{_ast.unparse(x)}` is used as a view (its shape is the shape-like `shape` parameter)",
+                            f"{bad}: for an enumeration or data-layout shape -- which the constructor accepts, and for which R / W / RW work -- the "
+                            "signal is a view, and this fails with an internal TypeError ('EnumView' object is not iterable / not "
+                            "subscriptable) when the field is elaborated; go through Value.cast() / .as_value()", line=x.lineno)
+    rep.ok(rule, "-", "signals of shape-like shape are only assigned, compared or converted", f"{n_cls} class(es), {n_use} use(s) examined",
+           nontrivial=n_cls > 0)
+    rep.count("view_uses", n_use)
+
+
 def write_once_handles(rep, rule, idx, cls_spec):
     """Objects the constructor creates and the hardware is built from (memory, memory data, ports, sub-components) are bound
     to their attribute once: no other method rebinds `self.<attr>`.  A setter that replaces the object instead of updating
